@@ -240,8 +240,9 @@ class Repo:
                 parsed[fn] = self._parse(fn)
         self.renamed_back: Dict[str, str] = {}
         if os.environ.get('VERIF_NO_NORMALIZE') != '1':
-            from .renames import canonical_imports, inline_decorators, materialise_properties, specialise_mixins, undo_renames
+            from .renames import canonical_imports, desugar_match, inline_decorators, materialise_properties, specialise_mixins, undo_renames
             trees_ = {fn[:-3]: t[3] for fn, t in parsed.items()}
+            self.match_statements = desugar_match(trees_)
             self.canonical_imports = canonical_imports(trees_, PKG)
             self.renamed_back = undo_renames(trees_)
             self.specialised = specialise_mixins(trees_)
@@ -594,8 +595,17 @@ class Repo:
         if any(b.split('.')[-1] == 'NamedTuple' for b in c.all_ext_bases()):
             return True
         decos = [ast.unparse(d) for d in c.node.decorator_list]
-        if any(d.split('(')[0].split('.')[-1] == 'dataclass' for d in decos) and not c.methods:
-            return True
+        if any(d.split('(')[0].split('.')[-1] == 'dataclass' for d in decos):
+            if not c.methods:
+                return True
+            # a frozen dataclass whose methods only read it (``__iter__`` for unpacking, ``__str__``, derived properties): still
+            # fully described by its constructor call
+            frozen = any('frozen=True' in d.replace(' ', '') for d in decos)
+            hooks = {'__init__', '__post_init__', '__new__', '__setattr__', '__getattr__', '__getattribute__', '__eq__', '__hash__'}
+            writes = any(isinstance(n, ast.Attribute) and isinstance(n.ctx, (ast.Store, ast.Del)) and isinstance(n.value, ast.Name)
+                         and n.value.id == 'self' for m_ in c.methods.values() for n in ast.walk(m_.node))
+            if frozen and not (hooks & set(c.methods)) and not writes and not c.setters:
+                return True
         return False
 
     def cached_value_factory(self, fi: 'FuncInfo') -> bool:
